@@ -59,12 +59,14 @@ mod verif_udp {
         (ok, n, kind_of(k))
     }
 
-    static BUF: [u8; 64] = [b'a'; 64];
-    /// a string slice of symbolic length 0..=64; the sinks never read the bytes (only pointer and
+    static BUF: [u8; 131072] = [b'a'; 131072];
+    /// a string slice of symbolic length 0..=131072; the sinks never read the bytes (only pointer and
     /// length are passed on), so the argument is length- and content-parametric
     fn any_str() -> &'static str {
         let len: usize = kani::any();
-        kani::assume(len <= 64);
+        kani::assume(len <= 131072);
+        // any length up to 128 KiB (beyond the largest UDP/Unix datagram): the bytes are never read by
+        // the code under test, only the pointer and the length travel to the stub
         unsafe { std::str::from_utf8_unchecked(&BUF[..len]) }
     }
 
@@ -73,7 +75,7 @@ mod verif_udp {
         unsafe { UdpSocket::from_raw_fd(7) }
     }
 
-    //@H name=c13_udp_emit props=C13,C14,C20 bound="metric length 0..=64 bytes (the code passes pointer+length only)" fn=UdpMetricSink::emit :: unbuffered UDP emit = exactly one send_to of exactly the metric's bytes (any length) to the configured address; result and statistics follow the socket's answer
+    //@H name=c13_udp_emit props=C13,C14,C20 bound="metric length 0..=131072 bytes (the code passes pointer+length only)" fn=UdpMetricSink::emit :: unbuffered UDP emit = exactly one send_to of exactly the metric's bytes (any length) to the configured address; result and statistics follow the socket's answer
     #[kani::proof]
     #[kani::stub(std::net::UdpSocket::send_to, send_to_stub)]
     fn c13_udp_emit() {
@@ -118,7 +120,7 @@ mod verif_udp {
         std::mem::forget(r);
     }
 
-    //@H name=c13_udp_adapter_write props=C05,C06,C07,C13,C14,C20 bound="buffer length 0..=64 bytes (the code passes pointer+length only)" fn=UdpWriteAdapter::write :: the buffered sink's adapter is a datagram writer: one send_to per write, same bytes, configured address, all-or-nothing result through the statistics
+    //@H name=c13_udp_adapter_write props=C05,C06,C07,C13,C14,C20 bound="buffer length 0..=131072 bytes (the code passes pointer+length only)" fn=UdpWriteAdapter::write :: the buffered sink's adapter is a datagram writer: one send_to per write, same bytes, configured address, all-or-nothing result through the statistics
     #[kani::proof]
     #[kani::stub(std::net::UdpSocket::send_to, send_to_stub)]
     fn c13_udp_adapter_write() {
@@ -188,20 +190,20 @@ mod verif_udp {
         Err(std::sync::TryLockError::WouldBlock)
     }
 
-    //@H name=c12_udp_emit_flush props=C06,C12,C13,C14,C20 bound="capacity 8, one 2-byte metric" fn=BufferedUdpMetricSink::emit,flush :: buffered Udp sink: emit == one write of the whole metric into the line writer (nothing sent); flush == ONE datagram metric+newline to the configured destination; flushing again sends nothing
+    //@H name=c12_udp_emit_flush props=C06,C12,C13,C14,C20 bound="capacity 8, one 3-byte metric" fn=BufferedUdpMetricSink::emit,flush :: buffered Udp sink: emit == one write of the whole metric into the line writer (nothing sent); flush == ONE datagram metric+newline to the configured destination; flushing again sends nothing
     #[kani::proof]
     #[kani::unwind(40)]
     #[kani::stub(std::net::UdpSocket::send_to, send_to_stub)]
     fn c12_udp_emit_flush() {
         let s = ManuallyDrop::new(BufferedUdpMetricSink::with_capacity(any_addr(), fake_socket(), 8).ok().unwrap());
-        OUTCOME.store(4, Ordering::SeqCst); // the socket accepts: Ok(3)
-        let r = s.emit("ab");
-        assert!(matches!(r, Ok(2)), "[C06,C12] emit returns the metric's byte length");
+        OUTCOME.store(5, Ordering::SeqCst); // the socket accepts: Ok(4)
+        let r = s.emit(" b ");   // blanks at both ends: the sink does not trim or normalise the metric
+        assert!(matches!(r, Ok(3)), "[C06,C12] emit returns the metric's byte length");
         assert!(CALLS.load(Ordering::SeqCst) == 0, "[C19] a metric that fits is buffered, nothing is sent");
         assert!(s.flush().is_ok(), "[C06] flush succeeds when the socket accepts");
-        assert!(CALLS.load(Ordering::SeqCst) == 1 && LEN.load(Ordering::SeqCst) == 3, "[C06,C12,C13] flush sends what remains as ONE datagram: the metric followed by a single newline");
+        assert!(CALLS.load(Ordering::SeqCst) == 1 && LEN.load(Ordering::SeqCst) == 4, "[C06,C12,C13] flush sends what remains as ONE datagram: the whole metric (blanks included) followed by a single newline");
         assert!(ADDR_OK.load(Ordering::SeqCst) == 1, "[C13] to the destination given at construction");
-        assert!(snapshot(&s.stats) == [3, 1, 0, 0], "[C14] the buffered sink's statistics count the datagram the socket accepted");
+        assert!(snapshot(&s.stats) == [4, 1, 0, 0], "[C14] the buffered sink's statistics count the datagram the socket accepted");
         assert!(s.flush().is_ok() && CALLS.load(Ordering::SeqCst) == 1, "[C06] flushing again sends nothing");
         kani::cover!(true, "end");
         std::mem::forget(r);
